@@ -8,6 +8,28 @@ def model_check(ctx):
             ctx.mc('crossloop', 'MC_CrossLoop', cfg + '.cfg', expect_violation=expect, timeout=300)
         else:
             ctx.mc('crossloop', 'MC_CrossLoop', cfg + '.cfg', timeout=600)
+    inductive(ctx)
+
+
+def inductive(ctx):
+    """Apalache: IndInv of Apa_CrossLoop.tla holds initially, is preserved by every step and implies the C17
+    invariants - for every set of up to 4 callers and every mode, without enumerating the reachable states.  The
+    same obligation without the locked re-check of _get_loop_lock must fail (vacuity guard)."""
+    from harness import apalache, core
+    obligations = [('base', 'CInit', 'Init', 'IndInv', 0, 'ok'),
+                   ('step', 'CInit', 'IndInv', 'IndInv', 1, 'ok'),
+                   ('implies', 'CInit', 'IndInv', 'Consequences', 0, 'ok'),
+                   ('step_without_recheck', 'CInitNoReCheck', 'IndInv', 'IndInv', 1, 'violated')]
+    runs = []
+    for name, cinit, init, inv, length, want in obligations:
+        res, dt, tail = apalache.check('crossloop', 'Apa_CrossLoop', cinit, init, inv, length)
+        runs.append({'obligation': name, 'cinit': cinit, 'init': init, 'inv': inv, 'length': length,
+                     'result': res, 'expected': want, 'seconds': round(dt, 1)})
+        if res != want:
+            raise core.MachineryError('Apalache obligation %s of Apa_CrossLoop: expected %s, got %s\n%s' % (name, want, res, tail))
+    ctx.cov['apalache'] = {'module': 'Apa_CrossLoop', 'runs': runs,
+                           'what': 'inductive invariant IndInv (implies OneLockPerLoop, OneRunner, NoAlreadyRunning, StartSync, '
+                                   'StopSync) discharged symbolically for all caller sets within {C1..C4} and all modes'}
 
 
 # ---------------------------------------------------------------------------------------------
